@@ -62,7 +62,7 @@ Cl(t, n, F) == IF Mode = "mc" THEN F ELSE (IF F THEN TRUE ELSE Note(t, n))
 (*   trace: each failing clause is noted with its tag.                                          *)
 PS(L) == IF Mode = "mc"
          THEN viol' = viol \cup {L[i][2] : i \in {j \in 1..Len(L) : ~L[j][3]}}
-         ELSE /\ \A i \in 1..Len(L) : L[i][3] \/ Note(L[i][1], L[i][2])
+         ELSE /\ \A i \in 1..Len(L) : IF L[i][3] THEN TRUE ELSE Note(L[i][1], L[i][2])
               /\ viol' = viol
 NoViolation == viol = {}
 
@@ -116,7 +116,7 @@ MemoOK(q, a) == q \in DOMAIN orc => orc[q] = a
 (* configuration alone (C10).                                               *)
 NewSolve(r, c) ==
   /\ Cl("M", "NewSolve.pc", pc[r] = "Idle")
-  /\ cfg' = [cfg EXCEPT ![r] = c]
+  /\ cfg' = [cfg EXCEPT ![r] = [k \in (DOMAIN c) \ {"tabs"} |-> c[k]]]   \* the rank tables stay in the trace
   /\ pc' = [pc EXCEPT ![r] = "Init"]
   /\ cur' = [cur EXCEPT ![r] = c.start]
   /\ lamb' = [lamb EXCEPT ![r] = c.lambInit]
